@@ -302,6 +302,15 @@ func (sc *lcScenario) execute(x *simkit.Exec, salt string, o lcOpts) lcResult {
 			s.PlanRates([]string{"outage:compactor:upload", "outage:compactor:delete", "outage:compactor:get"}, []int{0, 40, 120})
 		}
 
+		// Gateway syncs are periodic, so by themselves they almost never fall between two operations of one
+		// block upload. A sync triggered right after the compactor has uploaded a data file of a block (its
+		// meta.json follows) looks at the bucket in exactly that state; whether a given upload triggers one
+		// is a seeded decision per gateway.
+		kicks := make([]chan struct{}, len(gws))
+		for i, g := range gws {
+			kicks[i] = make(chan struct{}, 1)
+			s.SetRate("early-sync:"+g.name, []int{0, 150, 500, 1000}[x.Tape.Draw("rate:early-sync:"+g.name, 4)])
+		}
 		serving := false // becomes true once every gateway has synced once
 		checkAvailability := func(when string) {
 			if !o.checkServing || !serving || x.Failed() {
@@ -339,6 +348,16 @@ func (sc *lcScenario) execute(x *simkit.Exec, salt string, o lcOpts) lcResult {
 				}
 				checkAvailability("during sync of " + op.Actor + ", after " + op.String())
 			}
+			if op.Effect && op.Actor == "compactor" && op.Kind == "upload" && serving && (strings.HasSuffix(op.Name, "/index") || strings.Contains(op.Name, "/chunks/")) {
+				for i, g := range gws {
+					if s.Fault("early-sync:"+g.name, s.OpID("early-sync", g.name)) {
+						select {
+						case kicks[i] <- struct{}{}:
+						default:
+						}
+					}
+				}
+			}
 			if op.Effect {
 				if sc.realGateway {
 					for _, g := range gws {
@@ -374,11 +393,20 @@ func (sc *lcScenario) execute(x *simkit.Exec, salt string, o lcOpts) lcResult {
 					if isDone() && err == nil {
 						return
 					}
+					wait := func(d time.Duration) {
+						t := time.NewTimer(d)
+						defer t.Stop()
+						select {
+						case <-t.C:
+						case <-kicks[gi]:
+							s.Probe("lc.gateway_sync_during_block_upload")
+						}
+					}
 					if first && err == nil {
 						first = false
-						time.Sleep(sc.gwInterval[gi] - sc.gwPhase[gi])
+						wait(sc.gwInterval[gi] - sc.gwPhase[gi])
 					} else {
-						time.Sleep(sc.gwInterval[gi])
+						wait(sc.gwInterval[gi])
 					}
 				}
 			})
